@@ -81,7 +81,9 @@ def make_cases(ctx, rng):
                       "merge_chunk": [1, 2, 20000][(idx // 5) % 3],
                       "fmt": "parquet" if (idx // 16) % 4 == 3 else "pin", "workers": 1 + (idx // 7) % 3,
                       # a three-column spectrum key (ScanNr, ret_time, ExpMass), the retention time missing for every third spectrum
-                      "key_rt": {3: "missing", 7: "full"}.get(idx % 11)})
+                      "key_rt": {3: "missing", 7: "full"}.get(idx % 11),
+                      # whole-number masses written as integers in a text table (chunks are type-inferred one by one)
+                      "int_mass": idx % 11 in (1, 5, 9)})
         idx += 1
     # several collections, with and without prefixes
     nmulti = 300 if ctx.quick else 3000
@@ -107,7 +109,8 @@ def make_cases(ctx, rng):
         cases.append({"kind": "assign", "colls": [{"rows": rows}], "extra_levels": ["prec"], "dedup": dedup,
                       "rollup": rollup, "decoys": True, "chunk": int(rng.choice([1, 7, 50, n - 1, n, n + 1, 10 ** 6])),
                       "merge_chunk": int(rng.choice([1, 3, 20000])), "fmt": "parquet" if j % 3 == 0 else "pin",
-                      "row_group": int(rng.choice([1, 7, 64])), "workers": 1 + j % 4, "key_rt": [None, "missing", None, "full"][j % 4]})
+                      "row_group": int(rng.choice([1, 7, 64])), "workers": 1 + j % 4, "key_rt": [None, "missing", None, "full"][j % 4],
+                      "int_mass": j % 4 == 2})
     # the stand-alone rollup tool on result files of 2-3 prefixed collections
     for j in range(200 if ctx.quick else 2000):
         k = 2 + (j % 2)
